@@ -28,3 +28,5 @@ CLAIM = dict(
     note="Exact-arithmetic theorems; rounding is covered by the bit-exact correspondence and tolerance oracles.",
     technique="Lean 4 proof over an abstract lawful field + bit-exact differential correspondence at Float",
 )
+
+CLAIM["text"] += " The same two-operand sums are also written with the library's fold (`sum([a, b])`, `sum([b, a])`) and must display what `a + b` displays."
